@@ -261,9 +261,15 @@ def instantiate(cases):
             continue
         flags_ = None if c["flags"] is None else ns_flags(c["flags"])
         ct = guard(lambda: (lambda t: [] if t is None else vet(t))(jg.completion_time))
-        r = guard(lambda: obs_task_graphs(list(jg.generate_task_graphs(et(c["completion"]), _flags=flags_).values()),
-                                          c["names"]))
-        out.append({"res": r, "ct": ct, "draws": pol._rng.calls, "uniform": [u[2] for u in UNI.calls],
+        meta = []
+
+        def run():
+            tgs = list(jg.generate_task_graphs(et(c["completion"]), _flags=flags_).values())
+            for tg in tgs:     # what the property names as observation points: TaskGraph release time / deadline
+                meta.append([int(tg.release_time.to(EventTime.Unit.US).time), int(tg.deadline.to(EventTime.Unit.US).time)])
+            return obs_task_graphs(tgs, c["names"])
+        r = guard(run)
+        out.append({"res": r, "ct": ct, "tg_meta": meta, "draws": pol._rng.calls, "uniform": [u[2] for u in UNI.calls],
                     "uniform_args": [[u[0], u[1]] for u in UNI.calls]})
     return out
 
